@@ -36,9 +36,18 @@ pub(crate) fn is_dwarf_section_name(name: &str) -> bool {
         SectionId::DebugTuIndex,
         SectionId::DebugTypes,
     ];
+    // DWARF sections this version of gimli has no id for. They index the
+    // sections above, so they cannot be kept once those are rewritten or dropped.
+    const OTHER_DWARF_SECTIONS: [&str; 4] = [
+        ".debug_names",
+        ".debug_sup",
+        ".debug_gnu_pubnames",
+        ".debug_gnu_pubtypes",
+    ];
     DWARF_SECTIONS
         .iter()
         .any(|id| id.name() == name || id.dwo_name() == Some(name))
+        || OTHER_DWARF_SECTIONS.contains(&name)
 }
 
 /// The DWARF debug section in input WebAssembly binary.
